@@ -168,13 +168,73 @@ def linter_impl(args):
     return out
 
 
+def gen_crossfile_case(rng):
+    """(C) constants defined in two files: the cross-file pass reports each definition; directives in the first file"""
+    lang = rng.choice(["py", "py", "ts"])
+    n = rng.randint(3, 6)
+    names = [f"{rng.choice(['DEFAULT', 'MAX', 'CACHE', 'UPLOAD', 'RETRY'])}_{rng.choice(['TIMEOUT', 'LIMIT', 'BYTES', 'TTL', 'COUNT'])}_{i}" for i in range(n)]
+    kinds = [rng.choice(["none", "same", "next", "block", "same-other"] if lang == "py" else ["none", "same", "same-other", "block"]) for _ in range(n)]
+    cm = "#" if lang == "py" else "//"
+    a, b, expect_a, expect_b = [], [], [], []
+    if lang == "py":
+        a.append('"""Module a."""')
+        b.append('"""Module b."""')
+    for name, kind in zip(names, kinds):
+        val = 1000 + len(a) * 7
+        line = f"{name} = {val}" if lang == "py" else f"export const {name} = {val};"
+        b.append(line)
+        expect_b.append(len(b))
+        other = rng.choice(["nesting", "magic-numbers", "srp"])
+        if kind == "same":
+            a.append(f"{line}  {cm} thailint: ignore[{rng.choice(['dry', 'dry.duplicate-code', 'dry.*', 'DRY'])}]")
+        elif kind == "same-other":
+            a.append(f"{line}  {cm} thailint: ignore[{other}]")
+            expect_a.append(len(a))
+        elif kind == "next":
+            a.append(f"{cm} thailint: ignore-next-line[dry]")
+            a.append(line)
+        elif kind == "block":
+            a.append(f"{cm} thailint: ignore-start dry")
+            a.append(line)
+            a.append(f"{cm} thailint: ignore-end")
+        else:
+            a.append(line)
+            expect_a.append(len(a))
+    ext = lang
+    return {"files": {f"pkg/a.{ext}": "\n".join(a) + "\n", f"pkg/b.{ext}": "\n".join(b) + "\n"}, "kinds": kinds, "lang": lang,
+            "expect": sorted([[f"a.{ext}", ln] for ln in expect_a] + [[f"b.{ext}", ln] for ln in expect_b])}
+
+
+def crossfile_impl(args):
+    idx, case, root = args
+    proj = Path(root) / f"x{idx}"
+    out = {"errors": [], "runs": {}}
+    try:
+        (proj / "pkg").mkdir(parents=True)
+        (proj / ".thailint.yaml").write_text("dry:\n  enabled: true\n  detect_duplicate_constants: true\n")
+        for rel, text in case["files"].items():
+            (proj / rel).write_text(text)
+        for label, cwd, target in (("relative", proj, "pkg"), ("absolute", proj, str(proj / "pkg")), ("dot", proj / "pkg", ".")):
+            code, stdout = core.run_cli(["--project-root", str(proj), "dry", "--format", "json", target], cwd=cwd)
+            vs = core.violations_json(stdout)
+            out["runs"][label] = None if vs is None else sorted([Path(v["file_path"]).name, v["line"]] for v in vs if "constant" in v["message"].lower())
+            if vs is None:
+                out["errors"].append(f"{label}: exit {code}: {stdout[:200]}")
+    except Exception as exc:  # noqa: BLE001
+        out["errors"].append(f"{type(exc).__name__}: {exc}")
+    finally:
+        shutil.rmtree(proj, ignore_errors=True)
+    return out
+
+
 def run(tier: str, seed: int, st: core.ProofStatus) -> core.Result:
     res = core.Result()
     res.rule = ("(A) seeded files with one or two directives: form (same line, next line, block, two blocks, unclosed block, file header at "
                 "lines 1..16) x # / // x thailint / design-lint x rule naming (full id, linter, linter.*, upper/title case, deprecated alias, "
                 "other rule, bare, lists) queried on every code line; real engine vs Lean engine vs planted scope. (B) 18 linter x language "
                 "cells: for the first violations of a trigger file, a directive naming the rule / another rule is inserted on the line, "
-                "before it, around it, in the header; CLI before/after. Non-trivial = a case in which some line is suppressed and some is not")
+                "before it, around it, in the header; CLI before/after. (C) constants defined in two files (Python, TypeScript) with same-line / next-line / "
+                "block directives naming dry or another rule in the first file, `thailint dry` on the directory spelled relative, absolute and `.`. Non-trivial = a case in which some line is suppressed and some is not")
     rng = core.sub_rng(seed, PROP, tier)
     # ---------------- A
     nA = 400 if tier == "quick" else 8000
@@ -249,6 +309,9 @@ def run(tier: str, seed: int, st: core.ProofStatus) -> core.Result:
             res.bump("B_findings_in_base_file", f"{cmd}/{key}{'/rich' if cfg else ''}: {len(base)}")
             metaB.append({"cmd": cmd, "fname": fname, "plan": plan, "base": base})
         implsB = core.pmap(linter_impl, work2, procs=16)
+        # ---------------- C
+        casesC = [gen_crossfile_case(rng) for _ in range(30 if tier == "quick" else 300)]
+        implsC = core.pmap(crossfile_impl, [(i, c, str(root)) for i, c in enumerate(casesC)], procs=16)
     finally:
         shutil.rmtree(root, ignore_errors=True)
     # ---- evaluate A
@@ -336,6 +399,25 @@ def run(tier: str, seed: int, st: core.ProofStatus) -> core.Result:
                                                                note=f"`thailint {cmd}` after inserting {p['form']} directive naming {p['named']!r} for {p['rule']}@{p['line']}: "
                                                                     f"should have disappeared but did not / vanished wrongly: still-there {extra[:3]} wrongly-gone {missing[:3]}"))
             res.nontrivial.add(core.canon([cmd, meta["fname"], r["label"]]))
+    # ---- evaluate C
+    for c, im in zip(casesC, implsC):
+        res.evaluations += 1
+        res.bump("C_language", c["lang"])
+        for k in c["kinds"]:
+            res.bump("C_directive", k)
+        case = {"level": "cross-file", "files": c["files"]}
+        if im["errors"]:
+            res.disagreements.append(core.Disagreement(case=case, impl=im["errors"], model=None, spec=c["expect"], property_fails=True, note="; ".join(im["errors"])[:600]))
+            continue
+        if any(k in ("same", "next", "block") for k in c["kinds"]) and any(k in ("none", "same-other") for k in c["kinds"]):
+            res.nontrivial.add(core.canon(c["files"]))
+        for label, got in im["runs"].items():
+            if got != c["expect"]:
+                res.disagreements.append(core.Disagreement(
+                    case={**case, "target": label}, impl=got, model=None, spec=c["expect"], property_fails=True,
+                    note=f"`thailint dry` ({label} target), constants defined in two files with directives in the first: still-there "
+                         f"{[g for g in got if g not in c['expect']][:4]} wrongly-gone {[e for e in c['expect'] if e not in got][:4]}"))
+                break
     drv.close()
     return res
 
